@@ -86,19 +86,19 @@ func parseRectArea(ltyp string, vs []string) (nvs []string,
 			return
 		}
 		var minLat, minLon, maxLat, maxLon float64
-		if minLat, err = strconv.ParseFloat(sminLat, 64); err != nil {
+		if minLat, err = parseFloat(sminLat); err != nil {
 			err = errInvalidArgument(sminLat)
 			return
 		}
-		if minLon, err = strconv.ParseFloat(sminLon, 64); err != nil {
+		if minLon, err = parseFloat(sminLon); err != nil {
 			err = errInvalidArgument(sminLon)
 			return
 		}
-		if maxLat, err = strconv.ParseFloat(smaxlat, 64); err != nil {
+		if maxLat, err = parseFloat(smaxlat); err != nil {
 			err = errInvalidArgument(smaxlat)
 			return
 		}
-		if maxLon, err = strconv.ParseFloat(smaxlon, 64); err != nil {
+		if maxLon, err = parseFloat(smaxlon); err != nil {
 			err = errInvalidArgument(smaxlon)
 			return
 		}
@@ -245,18 +245,18 @@ func (s *Server) cmdSearchArgs(
 			return
 		}
 		var lat, lon, meters float64
-		if lat, err = strconv.ParseFloat(slat, 64); err != nil {
+		if lat, err = parseFloat(slat); err != nil {
 			err = errInvalidArgument(slat)
 			return
 		}
-		if lon, err = strconv.ParseFloat(slon, 64); err != nil {
+		if lon, err = parseFloat(slon); err != nil {
 			err = errInvalidArgument(slon)
 			return
 		}
 		// radius is optional for nearby, but mandatory for others
 		if cmd == "nearby" {
 			if vs, smeters, ok = tokenval(vs); ok && smeters != "" {
-				meters, err = strconv.ParseFloat(smeters, 64)
+				meters, err = parseFloat(smeters)
 				if err != nil || meters < 0 {
 					err = errInvalidArgument(smeters)
 					return
@@ -285,11 +285,11 @@ func (s *Server) cmdSearchArgs(
 			return
 		}
 		var lat, lon, meters float64
-		if lat, err = strconv.ParseFloat(slat, 64); err != nil {
+		if lat, err = parseFloat(slat); err != nil {
 			err = errInvalidArgument(slat)
 			return
 		}
-		if lon, err = strconv.ParseFloat(slon, 64); err != nil {
+		if lon, err = parseFloat(slon); err != nil {
 			err = errInvalidArgument(slon)
 			return
 		}
@@ -297,7 +297,7 @@ func (s *Server) cmdSearchArgs(
 			err = errInvalidNumberOfArguments
 			return
 		}
-		meters, err = strconv.ParseFloat(smeters, 64)
+		meters, err = parseFloat(smeters)
 		if err != nil || meters < 0 {
 			err = errInvalidArgument(smeters)
 			return
@@ -344,23 +344,23 @@ func (s *Server) cmdSearchArgs(
 			return
 		}
 		var lat, lon, meters, b1, b2 float64
-		if lat, err = strconv.ParseFloat(slat, 64); err != nil {
+		if lat, err = parseFloat(slat); err != nil {
 			err = errInvalidArgument(slat)
 			return
 		}
-		if lon, err = strconv.ParseFloat(slon, 64); err != nil {
+		if lon, err = parseFloat(slon); err != nil {
 			err = errInvalidArgument(slon)
 			return
 		}
-		if meters, err = strconv.ParseFloat(smeters, 64); err != nil {
+		if meters, err = parseFloat(smeters); err != nil {
 			err = errInvalidArgument(smeters)
 			return
 		}
-		if b1, err = strconv.ParseFloat(sb1, 64); err != nil {
+		if b1, err = parseFloat(sb1); err != nil {
 			err = errInvalidArgument(sb1)
 			return
 		}
-		if b2, err = strconv.ParseFloat(sb2, 64); err != nil {
+		if b2, err = parseFloat(sb2); err != nil {
 			err = errInvalidArgument(sb2)
 			return
 		}
@@ -427,7 +427,7 @@ func (s *Server) cmdSearchArgs(
 			err = errInvalidNumberOfArguments
 			return
 		}
-		if lfs.roam.meters, err = strconv.ParseFloat(smeters, 64); err != nil {
+		if lfs.roam.meters, err = parseFloat(smeters); err != nil {
 			err = errInvalidArgument(smeters)
 			return
 		}
